@@ -19,14 +19,18 @@ pub(crate) fn read_string(byte_stream: Vec<u8>) -> String {
     str.trim_matches(char::from(0)).to_string() // trim \0 from the end of strings
 }
 
+/// The bytes of `str` up to its first NUL (a C string cannot contain one).
+fn to_c_string(str: &str) -> CString {
+    let end = str.find('\0').unwrap_or(str.len());
+    CString::new(&str[..end]).unwrap_or_default()
+}
+
 pub(crate) fn write_string(str: &String) -> Vec<u8> {
-    let c_string = CString::new(&**str).unwrap();
-    c_string.as_bytes_with_nul().to_vec()
+    to_c_string(str).as_bytes_with_nul().to_vec()
 }
 
 pub(crate) fn get_string_len(str: &String) -> usize {
-    let c_string = CString::new(&**str).unwrap();
-    c_string.count_bytes() + 1 // for the nul terminator
+    to_c_string(str).count_bytes() + 1 // for the nul terminator
 }
 
 #[binrw::parser(reader)]
